@@ -15,4 +15,11 @@ void h_Res_lock_write_owner(void) { struct Res *r = mk(); g_me = 1; g_mode = 0; 
 void h_Res_unlock_read(void) { struct Res *r = mk(); g_me = 0; g_mode = 1; g_myType = OP_READ; Res__unlock(r, OP_READ); after(); CANARY; }
 void h_Res_unlock_write(void) { struct Res *r = mk(); g_me = 0; g_mode = 1; g_myType = OP_WRITE; Res__unlock(r, OP_WRITE); after(); CANARY; }
 /* the public entry points and the guards delegate to lock()/unlock() with the matching kind on the same resource */
-int g_called; struct Res *g_called_on; OpType g_called_type;
+void h_Res_lockRead(void) { struct Res *r; Res__lockRead(r); CANARY; }
+void h_Res_lockWrite(void) { struct Res *r; Res__lockWrite(r); CANARY; }
+void h_Res_unlockRead(void) { struct Res *r; Res__unlockRead(r); CANARY; }
+void h_Res_unlockWrite(void) { struct Res *r; Res__unlockWrite(r); CANARY; }
+void h_RLock_ctor(void) { struct RLock *l; struct Res *r; RLock__ctor(l, r); CANARY; }
+void h_RLock_dtor(void) { struct RLock *l; RLock__dtor(l); CANARY; }
+void h_WLock_ctor(void) { struct WLock *l; struct Res *r; WLock__ctor(l, r); CANARY; }
+void h_WLock_dtor(void) { struct WLock *l; WLock__dtor(l); CANARY; }
